@@ -276,7 +276,68 @@ def rule_terms_multiset(ctx: Ctx, rep: Report) -> None:
     rule_terms_are_a_multiset(ctx, rep, "C16.terms_multiset", ('btclib.ecc.musig2', 'btclib.psbt.musig2', 'btclib.silent_payments', 'btclib.psbt.silent_payments', 'btclib.descriptors.key_expression'), 8)
 
 
+def rule_accumulators(ctx: Ctx, rep: Report) -> None:
+    """C16.accumulators: BIP327's ApplyTweak answers (Q', g*gacc mod n, t + g*tacc
+    mod n): the sign accumulator is the *product* over every tweak so far and
+    the tweak accumulator the running sum with the same sign. In apply_tweak
+    the new gacc is computed from this tweak's sign and the old gacc, the new
+    tacc from the tweak, the sign and the old tacc. A gacc that is the last
+    sign alone signs correctly after one tweak and with the wrong key after an
+    x-only tweak that negated followed by any other."""
+    from sa.canon import expand
+    rule = "C16.accumulators"
+    fi = ctx.func("btclib.ecc.musig2.apply_tweak")
+    p0 = fi.params()[0]
+    rets = [r for r in own_nodes(fi.node) if isinstance(r, ast.Return) and isinstance(r.value, ast.Call) and call_name(r.value) == "KeyAggContext" and len(r.value.args) == 3]
+    if len(rets) != 1:
+        rep.unknown(rule, "apply_tweak:return", fi.where(), f"{len(rets)} returns of a KeyAggContext")
+        return
+    _q, ga, ta = (str(expand(fi, a, depth=4)).replace(" ", "") for a in rets[0].value.args)
+    # locals that are the old accumulators, bound singly or in one tuple assignment
+    for a in own_nodes(fi.node):
+        if isinstance(a, ast.Assign) and isinstance(a.targets[0], ast.Tuple) and isinstance(a.value, ast.Tuple) and len(a.targets[0].elts) == len(a.value.elts):
+            for t_, v_ in zip(a.targets[0].elts, a.value.elts):
+                if isinstance(t_, ast.Name) and isinstance(v_, ast.Attribute) and isinstance(v_.value, ast.Name) and v_.value.id == p0 and v_.attr in ("gacc", "tacc"):
+                    import re as _re
+                    ga = _re.sub(rf"\b{t_.id}\b", f"{p0}.{v_.attr}", ga)
+                    ta = _re.sub(rf"\b{t_.id}\b", f"{p0}.{v_.attr}", ta)
+    parity = "%2" in ga or "&1" in ga
+    okg = f"{p0}.gacc" in ga and parity and "*" in ga
+    rep.ob(rule, "apply_tweak:gacc", okg, fi.where(rets[0]), "gacc' = g * gacc" if okg else f"the new gacc is `{norm(rets[0].value.args[1])}` = `{ga[:90]}`: it is not the product of this tweak's sign and the accumulated one")
+    okt = f"{p0}.tacc" in ta and ("%2" in ta or "&1" in ta) and "from_bytes" in ta and "+" in ta
+    rep.ob(rule, "apply_tweak:tacc", okt, fi.where(rets[0]), "tacc' = t + g * tacc" if okt else f"the new tacc is `{norm(rets[0].value.args[2])}` = `{ta[:90]}`: it is not t + g * tacc")
+    rep.floor(rule, 2)
+
+
+def rule_kmax_per_scan_key(ctx: Ctx, rep: Report) -> None:
+    """C16.kmax_per_scan_key: BIP352's K_MAX bounds the outputs *one scan key*
+    receives in a transaction (its k counter), not the recipients of the
+    transaction: the sender refuses a group -- the values collected under one
+    scan key -- that is longer than K_MAX, and compares nothing else with it.
+    Compared with the whole address list, a payment of 2324 outputs to two scan
+    keys, which every recipient can find, is refused."""
+    rule = "C16.kmax_per_scan_key"
+    fi = ctx.func("btclib.silent_payments.output_keys")
+    params = set(fi.params())
+    cmps = [c for c in own_nodes(fi.node) if isinstance(c, ast.Compare) and len(c.ops) == 1 and any(isinstance(x, ast.Name) and x.id == "K_MAX" for x in ast.walk(c))]
+    n = 0
+    for c in cmps:
+        lens = [x for x in ast.walk(c) if isinstance(x, ast.Call) and call_name(x) == "len" and x.args and isinstance(x.args[0], ast.Name)]
+        if not lens:
+            continue
+        n += 1
+        subj = lens[0].args[0].id
+        loops = [f for f in own_nodes(fi.node) if isinstance(f, ast.For) and any(isinstance(t, ast.Name) and t.id == subj for t in ast.walk(f.target))
+                 and isinstance(f.iter, ast.Call) and isinstance(f.iter.func, ast.Attribute) and f.iter.func.attr in ("values", "items")]
+        ok = subj not in params and bool(loops)
+        rep.ob(rule, f"output_keys:len({subj})", ok, fi.where(c), f"`{norm(c)}`: `{subj}` is one scan key's group" if ok else
+               f"`{norm(c)}`: `{subj}` is {'the argument itself' if subj in params else 'not a per-scan-key group'}: K_MAX is compared with the recipients of the whole transaction")
+    rep.floor(rule, 1)
+
+
 RULES = [
+    ("C16.kmax_per_scan_key", rule_kmax_per_scan_key),
+    ("C16.accumulators", rule_accumulators),
     ("C16.terms_multiset", rule_terms_multiset),
     ("C16.params_forwarded", rule_params_forwarded_),
     ("C16.ecies_order", rule_ecies_order),
